@@ -14,12 +14,14 @@ macro_rules! hmod {
 
 hmod!(sim, "sim.rs");
 hmod!(msg, "msg.rs");
+hmod!(c13_gateway, "c13_gateway.rs");
 
 use sim::Scenario;
 
 fn registry() -> Vec<&'static dyn Scenario> {
     let mut v: Vec<&'static dyn Scenario> = Vec::new();
     v.extend(crate::helpers::verif_h2::scenarios());
+    v.extend(c13_gateway::scenarios());
     v
 }
 
